@@ -11,26 +11,34 @@ NewRaw, NewRawConcurrentRead and loaded roots, with blank plans, escaped key spe
 string values; every view (Raw, Interface, InterfaceUseNumber, typed accessors, Map/Array,
 iterators, ForEach, Len) compared with the specification; Preorder events compared for every
 document; a token-streaming first-occurrence lookup over encoding/json is the second oracle.
+Typed accessors: spec/AstCast.tla gives Cast(value, accessor) for every scalar class (number texts with the facts strconv
+states about them, strings that are / are not number or boolean texts, literals, containers); every state replayed on the
+value as located by each search entry point and option set, as a lazily reached child, after loading, after other reads.
 """
 from .. import vf
 from . import searchcommon
+from . import castcommon
 
 
 def check(ctx):
     sums = searchcommon.run(ctx)
     searchcommon.judge(ctx, sums)
+    # the typed accessors of located values (spec/AstCast.tla; Len and wrapped Go values are C15's)
+    cast = castcommon.run(ctx, "json", skipacc="Len")
+    castcommon.judge(ctx, cast)
     s = sums[0]
     cov = {
-        "states": s["tlc"]["distinct"],
+        "states": s["tlc"]["distinct"] + cast["tlc"]["distinct"],
         "transitions": s["tlc"]["generated"],
         "traces_validated_against_impl": s["cases"],
-        "evaluations": s["evals"],
+        "evaluations": s["evals"] + cast["evals"],
         "distinct_nontrivial": s["distinct_nontrivial"],
         "rule": "GenSearch state = (document, path) with both lookup results and the views; replayed under 4 text plans x 12 search entry "
                 "points / option sets + 6 node routes; non-trivial = non-empty path",
         "samples": (s.get("samples") or [])[:5],
         "exhaustive": True,
-        "oracle_disagreements": s["oracle_disagreements"],
+        "oracle_disagreements": s["oracle_disagreements"] + cast["oracle_disagreements"],
+        "typed_accessors": castcommon.coverage(cast),
     }
     return vf.finish(ctx, "model_checking", cov, assumptions=[
         "documents are the finite set of spec/GenSearch.tla (depth <= 3, duplicate keys, empty keys); paths up to the bound over indexes -1..3 "
